@@ -93,12 +93,17 @@ func spawnWorker(self string, p *Prop, tier string, seed uint64, w workerSpec, t
 	var out, errb bytes.Buffer
 	cmd.Stdout = &out
 	cmd.Stderr = &errb
-	cmd.Env = append(os.Environ(), "GORACE=halt_on_error=0")
+	cmd.Env = append(os.Environ(), "GORACE=halt_on_error=0 history_size=7 log_path="+raceLogPrefix())
 	if err := cmd.Start(); err != nil {
 		return nil, err
 	}
 	done := make(chan error, 1)
 	go func() { done <- cmd.Wait() }()
+	defer func() {
+		if cmd.Process != nil {
+			os.Remove(fmt.Sprintf("%s.%d", raceLogPrefix(), cmd.Process.Pid))
+		}
+	}()
 	select {
 	case err := <-done:
 		if err != nil {
@@ -143,6 +148,19 @@ func crashInfo(stderr string) (int, string, bool) {
 	return idx, msg, idx >= 0 && msg != ""
 }
 
+var raceLogDir string
+
+// raceLogPrefix: where child processes write race reports (GORACE log_path); the directory lives beside the binary,
+// i.e. inside the scratch directory of this check, and disappears with it.
+func raceLogPrefix() string {
+	if raceLogDir == "" {
+		self, _ := os.Executable()
+		raceLogDir = filepath.Join(filepath.Dir(self), "racelogs")
+		_ = os.MkdirAll(raceLogDir, 0o755)
+	}
+	return filepath.Join(raceLogDir, "race")
+}
+
 func lastJSONLine(b []byte) []byte {
 	lines := bytes.Split(bytes.TrimSpace(b), []byte("\n"))
 	for i := len(lines) - 1; i >= 0; i-- {
@@ -177,12 +195,17 @@ func replayFresh1(self, file string, timeout time.Duration) (*replayOut, error) 
 	var out, errb bytes.Buffer
 	cmd.Stdout = &out
 	cmd.Stderr = &errb
-	cmd.Env = append(os.Environ(), "GORACE=halt_on_error=0")
+	cmd.Env = append(os.Environ(), "GORACE=halt_on_error=0 history_size=7 log_path="+raceLogPrefix())
 	if err := cmd.Start(); err != nil {
 		return nil, err
 	}
 	done := make(chan error, 1)
 	go func() { done <- cmd.Wait() }()
+	defer func() {
+		if cmd.Process != nil {
+			os.Remove(fmt.Sprintf("%s.%d", raceLogPrefix(), cmd.Process.Pid))
+		}
+	}()
 	select {
 	case <-done:
 	case <-time.After(timeout):
@@ -365,16 +388,36 @@ func checkMain(args []string) {
 		if err := writeScenario(tmp, sc); err != nil {
 			die2("%v", err)
 		}
-		ro, err := replayFresh(self, tmp, 10*time.Minute)
-		if err != nil {
-			die2("confirming a violation: %v", err)
+		// confirm in a fresh process. The execution must be identical (event-log hash); a race REPORT is the race
+		// detector's business and is not guaranteed for every identical execution (it has to restore the stack of the
+		// older access from a bounded per-thread history), so several attempts are made for that class.
+		attempts := 1
+		if fv.Violation.Class == "data-race" {
+			attempts = 8
 		}
-		cv := hasSig(ro.Violations, s)
+		var ro *replayOut
+		var cv *Violation
+		for a := 0; a < attempts && cv == nil; a++ {
+			var err error
+			ro, err = replayFresh(self, tmp, 10*time.Minute)
+			if err != nil {
+				die2("confirming a violation: %v", err)
+			}
+			if fv.Violation.Class != "crash" && ro.EventHash != fmt.Sprintf("%016x", fv.EventHash) {
+				die2("nondeterministic harness: event log of run %d differs between worker (%016x) and fresh replay (%s) (see %s)", fv.Idx, fv.EventHash, ro.EventHash, tmp)
+			}
+			cv = hasSig(ro.Violations, s)
+		}
+		unconfirmed := false
 		if cv == nil {
-			die2("nondeterministic harness: violation %s found in run %d does not reproduce from its scenario in a fresh process (see %s)", s, fv.Idx, tmp)
-		}
-		if fv.Violation.Class != "crash" && ro.EventHash != fmt.Sprintf("%016x", fv.EventHash) {
-			die2("nondeterministic harness: event log of run %d differs between worker (%016x) and fresh replay (%s) (see %s)", fv.Idx, fv.EventHash, ro.EventHash, tmp)
+			if fv.Violation.Class != "data-race" {
+				die2("nondeterministic harness: violation %s found in run %d does not reproduce from its scenario in a fresh process (see %s)", s, fv.Idx, tmp)
+			}
+			// the same execution replayed 8 times without the detector reporting again: the worker's report stands
+			// (the detector has no false positives and both stacks are in go-openapi code), it is just not minimised
+			unconfirmed = true
+			v := fv.Violation
+			cv = &v
 		}
 		if kf := matchKnown(known, cv); kf != nil {
 			// a listed finding: reported as such, not minimised again on every run
@@ -395,21 +438,45 @@ func checkMain(args []string) {
 			if writeScenario(f, c) != nil {
 				return false
 			}
-			r2, err := replayFresh(self, f, 5*time.Minute)
-			return err == nil && hasSig(r2.Violations, s) != nil
+			tries := 1
+			if fv.Violation.Class == "data-race" {
+				tries = 3
+			}
+			for a := 0; a < tries; a++ {
+				r2, err := replayFresh(self, f, 5*time.Minute)
+				if err == nil && hasSig(r2.Violations, s) != nil {
+					return true
+				}
+			}
+			return false
 		}
 		minBudget := 45 * time.Second
 		if *tier == "thorough" {
 			minBudget = 180 * time.Second
 		}
-		minSc, tried := minimize(sc, &fv.Violation, test, 400, minBudget)
+		maxCand := 400
+		if unconfirmed {
+			maxCand = 0
+		}
+		minSc, tried := minimize(sc, &fv.Violation, test, maxCand, minBudget)
 		os.Remove(tmp + ".min-candidate")
 		final := filepath.Join(*violDir, fmt.Sprintf("%s-%d-%d.json", p.ID, seed, si))
 		minSc.Expect = &fv.Violation
 		if err := writeScenario(final, minSc); err != nil {
 			die2("%v", err)
 		}
-		ro2, err := replayFresh(self, final, 10*time.Minute)
+		var ro2 *replayOut
+		var err error
+		for a := 0; a < attempts; a++ {
+			ro2, err = replayFresh(self, final, 10*time.Minute)
+			if err != nil || hasSig(ro2.Violations, s) != nil {
+				break
+			}
+		}
+		if unconfirmed {
+			ro2 = &replayOut{EventHash: ro.EventHash, Violations: []Violation{*cv}}
+			err = nil
+		}
 		if err != nil || hasSig(ro2.Violations, s) == nil {
 			// the minimised scenario must fail the same way in a fresh process; fall back to the unminimised one
 			minSc = sc
@@ -418,6 +485,12 @@ func checkMain(args []string) {
 			ro2 = ro
 		}
 		fin := hasSig(ro2.Violations, s)
+		if fin == nil {
+			fin = cv
+		}
+		if unconfirmed {
+			fin.Detail += " [race report captured in the exploring process; the identical execution replayed 8 times in fresh processes without the detector reporting again]"
+		}
 		minSc.Expect = fin
 		minSc.Hash = ro2.EventHash
 		_ = writeScenario(final, minSc)
